@@ -384,3 +384,6 @@ def run(rep, program: Program, tier: str) -> None:
     from . import c05
 
     rep.isolate(c05.rule_r3, rep, program, prop=PROP, rule="R9")
+    # each system's flows must use that system's own cached derivatives: the cache key identifies the system object
+    # (shared with C09-R6)
+    rep.isolate(c09.rule_r6, rep, program, prop=PROP, rule="R10")
